@@ -26,6 +26,7 @@ type Machine struct {
 	// (e.g. a type rendered without the file's qualifier).
 	Notes []Note
 	depth int
+	seq   int
 }
 
 // Note is an observation made by an Ext model.
@@ -166,6 +167,9 @@ func (m *Machine) CallFunc(pos token.Pos, fn *types.Func, recv Value, args []Val
 	if o, ok := recv.(*Opaque); ok {
 		// methods of opaque (non-moq) values are modelled per kind, whatever
 		// embedded struct declares them (go/types promotes object's methods)
+		if f, ok := o.Methods[fn.Name()]; ok {
+			return f(m, pos, args)
+		}
 		if ext, ok := m.Ext[OpaqueMethodKey(o.Kind, fn.Name())]; ok {
 			return ext(m, pos, recv, args)
 		}
@@ -291,6 +295,10 @@ func (m *Machine) zero(t types.Type) Value {
 		}
 		return NilV{}
 	case *types.Struct:
+		if n, ok := types.Unalias(t).(*types.Named); ok && n.Obj().Pkg() != nil && !m.Prog.IsMoqPkg(n.Obj().Pkg()) {
+			m.seq++
+			return &Opaque{Kind: n.Obj().Pkg().Path() + "." + n.Obj().Name(), ID: fmt.Sprintf("zero%d", m.seq), GoType: n.Obj().Pkg().Path() + "." + n.Obj().Name()}
+		}
 		s := &Struct{Type: t, Fields: map[string]Value{}}
 		for i := 0; i < u.NumFields(); i++ {
 			s.Fields[u.Field(i).Name()] = m.zero(u.Field(i).Type())
@@ -693,7 +701,7 @@ func (m *Machine) evalMulti(fr *frame, e ast.Expr, n int) ([]Value, error) {
 		}
 		return nil, undecided(e.Pos(), "comma-ok index on %s", Show(x))
 	case *ast.TypeAssertExpr:
-		return nil, undecided(e.Pos(), "type assertion in a template helper")
+		return m.typeAssert(fr, e)
 	}
 	v, err := m.eval(fr, e)
 	if err != nil {
@@ -891,11 +899,17 @@ func (m *Machine) eval(fr *frame, e ast.Expr) (Value, error) {
 				if s, ok := v.(*Struct); ok {
 					return &Ptr{Elem: s}, nil
 				}
+				if o, ok := v.(*Opaque); ok {
+					return o, nil
+				}
 			}
 			if id, ok := ast.Unparen(e.X).(*ast.Ident); ok {
 				if p := fr.lookup(info.ObjectOf(id)); p != nil {
-					if s, ok := (*p).(*Struct); ok {
+					switch s := (*p).(type) {
+					case *Struct:
 						return &Ptr{Elem: s}, nil
+					case *Opaque:
+						return s, nil // the address of an opaque object is the object
 					}
 				}
 			}
@@ -1037,7 +1051,18 @@ func (m *Machine) eval(fr *frame, e ast.Expr) (Value, error) {
 	case *ast.CallExpr:
 		return m.call(fr, e)
 	case *ast.TypeAssertExpr:
-		return nil, undecided(e.Pos(), "type assertion in a template helper")
+		vals, err := m.typeAssert(fr, e)
+		if err != nil {
+			return nil, err
+		}
+		if ok, isB := vals[1].(bool); isB && ok {
+			return vals[0], nil
+		}
+		if _, isU := vals[1].(*Unknown); isU {
+			return nil, undecided(e.Pos(), "unchecked type assertion whose outcome depends on the input")
+		}
+		m.Notes = append(m.Notes, Note{Rule: "H-PANIC", Key: "type-assertion@" + m.Prog.Pos(e.Pos()), Pos: e.Pos(), Msg: "unchecked type assertion fails in the abstract environment"})
+		return nil, undecided(e.Pos(), "unchecked type assertion fails")
 	}
 	return nil, undecided(e.Pos(), "expression %T is outside the analysed vocabulary", e)
 }
@@ -1264,7 +1289,24 @@ func (m *Machine) composite(fr *frame, e *ast.CompositeLit) (Value, error) {
 	t := info.TypeOf(e)
 	switch u := t.Underlying().(type) {
 	case *types.Struct:
-		s := m.zero(t).(*Struct)
+		z := m.zero(t)
+		if o, ok := z.(*Opaque); ok {
+			// literal of a struct type from outside moq (options structs ...): opaque, fields recorded
+			o.Attrs = map[string]Value{}
+			for _, el := range e.Elts {
+				if kv, ok := el.(*ast.KeyValueExpr); ok {
+					v, err := m.eval(fr, kv.Value)
+					if err != nil {
+						return nil, err
+					}
+					if id, ok := kv.Key.(*ast.Ident); ok {
+						o.Attrs[id.Name] = v
+					}
+				}
+			}
+			return o, nil
+		}
+		s := z.(*Struct)
 		for i, el := range e.Elts {
 			if kv, ok := el.(*ast.KeyValueExpr); ok {
 				v, err := m.eval(fr, kv.Value)
@@ -1478,3 +1520,40 @@ func OpaqueMethodKey(kind, method string) string {
 	}
 	return "(" + kind + ")." + method
 }
+
+// typeAssert evaluates x.(T) to (value, ok). Only opaque values with a known
+// dynamic Go type are in the vocabulary.
+func (m *Machine) typeAssert(fr *frame, e *ast.TypeAssertExpr) ([]Value, error) {
+	x, err := m.eval(fr, e.X)
+	if err != nil {
+		return nil, err
+	}
+	if e.Type == nil {
+		return nil, undecided(e.Pos(), "type switch guard")
+	}
+	want := types.TypeString(fr.info.TypeOf(e.Type), nil)
+	switch x := x.(type) {
+	case *Opaque:
+		if x.GoType == "" {
+			return []Value{x, &Unknown{Why: "dynamic type of " + Show(x)}}, nil
+		}
+		if x.GoType == want {
+			return []Value{x, true}, nil
+		}
+		if _, isIface := fr.info.TypeOf(e.Type).Underlying().(*types.Interface); isIface {
+			return []Value{x, &Unknown{Why: "interface assertion on " + Show(x)}}, nil
+		}
+		return []Value{NilV{}, false}, nil
+	case NilV:
+		return []Value{NilV{}, false}, nil
+	case *Unknown:
+		return []Value{x, x}, nil
+	}
+	return nil, undecided(e.Pos(), "type assertion on %s", Show(x))
+}
+
+// NextSeq returns a fresh sequence number (deterministic within one run).
+func (m *Machine) NextSeq() int { m.seq++; return m.seq }
+
+// Zero returns the zero value of a type.
+func (m *Machine) Zero(t types.Type) Value { return m.zero(t) }
